@@ -1,4 +1,5 @@
 import WK.Spec.C34
+import WK.Gen.C34
 /-
   C34 — Conversation unread counts and visibility are exact.
 
@@ -395,5 +396,181 @@ theorem c34_judge_item_model (r : Row) (h : Head) (it : Item) (hc : conversation
         have := c34_last_shown r h it s hc hh hcond.1.1 (by unfold visibleMessage; simp; omega)
         rw [hl] at this; simp at this
       · simp [hcond]
+
+
+/-! ## T tie: expressions regenerated from app.go / unread.go evaluate to the model -/
+
+open WK.Gen.C34 (floorOperands effectiveReadOperands unreadGuard unreadValue lastCond itemFields omitCond
+  joinFloorCond joinFloorThen joinFloorElse joinFloorParam maxStepCond maxStepValue maxStepVar
+  clearStoreMethod clearStoreSeq clearSkipCond setStoreMethod setStoreSeq setSkipCond setFloorOperands
+  setTargetGuard setTargetOperands setRejectsNegative deleteStoreMethod deleteStoreSeq)
+
+/-- the Go variables of conversationFromMembership / SetUnread as facts about a model row and head;
+    `target`, `cmd.Unread` are the extra locals of SetUnread -/
+def goEnv (r : Row) (h : Head) (target : Nat) (n : Int) : GoEnv where
+  num name :=
+    if name = "head.LastCommittedSeq" then some h.committed
+    else if name = "row.JoinSeq" then some r.join
+    else if name = "row.DeletedToSeq" then some r.del
+    else if name = "row.ReadSeq" then some r.read
+    else if name = "row.ActivatedAt" then some r.act
+    else if name = "head.RetentionThroughSeq" then some h.retention
+    else if name = "head.CurrentUserLastSendSeq" then some h.ownSend
+    else if name = "head.LastMessage.MessageSeq" then h.last.map Int.ofNat
+    else if name = "visibilityFloor" then some (visibilityFloor r h)
+    else if name = "effectiveRead" then some (effectiveRead r h)
+    else if name = "target" then some target
+    else if name = "cmd.Unread" then some n
+    else none
+  bool name :=
+    if name = "visibleMessage" then some (visibleMessage r h)
+    else if name = "head.LastMessage!=nil" then some h.last.isSome
+    else none
+
+
+section lookups
+variable (r : Row) (h : Head) (t : Nat) (n : Int)
+@[simp] theorem ge_committed : (goEnv r h t n).num "head.LastCommittedSeq" = some (h.committed : Int) := by simp [goEnv]
+@[simp] theorem ge_join : (goEnv r h t n).num "row.JoinSeq" = some (r.join : Int) := by simp [goEnv]
+@[simp] theorem ge_del : (goEnv r h t n).num "row.DeletedToSeq" = some (r.del : Int) := by simp [goEnv]
+@[simp] theorem ge_read : (goEnv r h t n).num "row.ReadSeq" = some (r.read : Int) := by simp [goEnv]
+@[simp] theorem ge_act : (goEnv r h t n).num "row.ActivatedAt" = some r.act := by simp [goEnv]
+@[simp] theorem ge_ret : (goEnv r h t n).num "head.RetentionThroughSeq" = some (h.retention : Int) := by simp [goEnv]
+@[simp] theorem ge_own : (goEnv r h t n).num "head.CurrentUserLastSendSeq" = some (h.ownSend : Int) := by simp [goEnv]
+@[simp] theorem ge_last : (goEnv r h t n).num "head.LastMessage.MessageSeq" = h.last.map Int.ofNat := by simp [goEnv]
+@[simp] theorem ge_floor : (goEnv r h t n).num "visibilityFloor" = some (visibilityFloor r h : Int) := by simp [goEnv]
+@[simp] theorem ge_eff : (goEnv r h t n).num "effectiveRead" = some (effectiveRead r h : Int) := by simp [goEnv]
+@[simp] theorem ge_target : (goEnv r h t n).num "target" = some (t : Int) := by simp [goEnv]
+@[simp] theorem ge_unread : (goEnv r h t n).num "cmd.Unread" = some n := by simp [goEnv]
+@[simp] theorem ge_vis : (goEnv r h t n).bool "visibleMessage" = some (visibleMessage r h) := by simp [goEnv]
+@[simp] theorem ge_haslast : (goEnv r h t n).bool "head.LastMessage!=nil" = some h.last.isSome := by simp [goEnv]
+end lookups
+
+theorem c34_gen_visible (r : Row) (h : Head) (t : Nat) (n : Int) :
+    evalB (goEnv r h t n) Gen.C34.visibleMessage = some (visibleMessage r h) := by
+  simp [Gen.C34.visibleMessage, evalB, evalN, visibleMessage]
+  by_cases h1 : r.join ≤ h.committed <;> simp [h1]
+
+theorem c34_gen_omit (r : Row) (h : Head) (t : Nat) (n : Int) :
+    evalB (goEnv r h t n) omitCond = some (!visibleMessage r h && decide (r.act ≤ 0)) := by
+  simp [omitCond, evalB, evalN]
+  cases visibleMessage r h <;> simp
+
+theorem c34_gen_floor (r : Row) (h : Head) (t : Nat) (n : Int) :
+    evalMax (goEnv r h t n) floorOperands = some (visibilityFloor r h) := by
+  simp [floorOperands, evalMax, evalN, visibilityFloor]
+
+theorem c34_gen_effective_read (r : Row) (h : Head) (t : Nat) (n : Int) :
+    evalMax (goEnv r h t n) effectiveReadOperands = some (effectiveRead r h) := by
+  simp [effectiveReadOperands, evalMax, evalN, effectiveRead]
+
+/-- the guarded subtraction of the source IS `unreadOf` (and never wraps) -/
+theorem c34_gen_unread (r : Row) (h : Head) (t : Nat) (n : Int) :
+    (match evalB (goEnv r h t n) unreadGuard with
+      | some true => (evalN (goEnv r h t n) unreadValue).map Int.toNat
+      | some false => some 0
+      | none => none) = some (unreadOf r h) := by
+  simp [unreadGuard, unreadValue, evalB, evalN, unreadOf]
+  by_cases hg : effectiveRead r h < h.committed
+  · have : (effectiveRead r h : Int) ≤ h.committed := by omega
+    simp [hg, this]; omega
+  · simp [hg]
+
+theorem c34_gen_last (r : Row) (h : Head) (t : Nat) (n : Int) :
+    evalB (goEnv r h t n) lastCond = some ((shownLast r h).isSome) := by
+  simp [lastCond, evalB, evalN, shownLast]
+  cases hv : visibleMessage r h <;> cases hl : h.last <;> simp
+  rename_i s
+  by_cases hs : visibilityFloor r h < s <;> simp [hs]
+
+def envJ (j : Nat) : GoEnv := ⟨fun s => if s = joinFloorParam then some (j : Int) else none, fun _ => none⟩
+
+theorem c34_gen_join_floor (j : Nat) :
+    (match evalB (envJ j) joinFloorCond with
+      | some true => evalN (envJ j) joinFloorThen
+      | some false => evalN (envJ j) joinFloorElse
+      | none => none) = some ((joinFloor j : Nat) : Int) := by
+  have hl : (envJ j).num "joinSeq" = some (j : Int) := by simp [envJ, joinFloorParam]
+  simp [joinFloorCond, joinFloorThen, joinFloorElse, evalB, evalN, joinFloor, hl]
+  by_cases hj : j = 0
+  · simp [hj]
+  · have : (1 : Int) ≤ j := by omega
+    simp [hj, this]; omega
+
+def envM (out v : Nat) : GoEnv :=
+  ⟨fun s => if s = maxStepVar then some (v : Int) else if s = "out" then some (out : Int) else none, fun _ => none⟩
+
+/-- the loop body of maxMembershipFloor is the fold step of `maxFloor` -/
+theorem c34_gen_max_step (out v : Nat) :
+    (match evalB (envM out v) maxStepCond with
+      | some true => evalN (envM out v) maxStepValue
+      | some false => some (out : Int)
+      | none => none) = some ((if v > out then v else out : Nat) : Int) := by
+  have h1 : (envM out v).num "value" = some (v : Int) := by simp [envM, maxStepVar]
+  have h2 : (envM out v).num "out" = some (out : Int) := by simp [envM, maxStepVar]
+  simp [maxStepCond, maxStepValue, evalB, evalN, h1, h2]
+  by_cases hv : out < v <;> simp [hv]
+
+theorem c34_gen_clear (r : Row) (h : Head) (t : Nat) (n : Int) :
+    clearStoreMethod = "AdvanceUserChannelMembershipReadSeq" ∧
+    (match evalB (goEnv r h t n) clearSkipCond with
+      | some true => some none
+      | some false => (evalN (goEnv r h t n) clearStoreSeq).map (fun x => some x.toNat)
+      | none => none) = some (clearTarget r h) := by
+  refine ⟨rfl, ?_⟩
+  simp [clearSkipCond, clearStoreSeq, evalB, evalN, clearTarget]
+  by_cases hc : h.committed ≤ r.read <;> simp [hc]
+
+/-- SetUnread's target, assembled from the extracted pieces, is the model's `setTarget` -/
+theorem c34_gen_set (r : Row) (h : Head) (n : Nat) :
+    setStoreMethod = "AdvanceUserChannelMembershipReadSeq" ∧ setRejectsNegative = true ∧
+    setFloorOperands = floorOperands ∧
+    (let floor := visibilityFloor r h
+     let target : Option Nat :=
+       match evalB (goEnv r h floor n) setTargetGuard with
+       | some true => evalMax (goEnv r h floor n) setTargetOperands
+       | some false => some floor
+       | none => none
+     target.bind (fun tg =>
+       match evalB (goEnv r h tg n) setSkipCond with
+       | some true => some none
+       | some false => (evalN (goEnv r h tg n) setStoreSeq).map (fun x => some x.toNat)
+       | none => none)) = some (setTarget r h n) := by
+  refine ⟨rfl, rfl, rfl, ?_⟩
+  simp only [setTargetGuard, setTargetOperands, setSkipCond, setStoreSeq, setTarget]
+  by_cases hn : n < h.committed
+  · have h1 : (n : Int) ≤ h.committed := by omega
+    have h2 : ((h.committed : Int) - (n : Int)).toNat = h.committed - n := by omega
+    simp [evalB, evalN, evalMax, hn, h1, h2]
+    by_cases hs : maxFloor [visibilityFloor r h, h.committed - n] ≤ r.read <;> simp [hs]
+  · simp [evalB, evalN, evalMax, hn]
+    by_cases hs : visibilityFloor r h ≤ r.read <;> simp [hs]
+
+theorem c34_gen_delete (r : Row) (h : Head) (t : Nat) (n : Int) :
+    deleteStoreMethod = "HideUserChannelMembership" ∧
+    evalN (goEnv r h t n) deleteStoreSeq = some (h.committed : Int) := by
+  refine ⟨rfl, ?_⟩
+  simp [deleteStoreSeq, evalN]
+
+/-- the returned Conversation takes Unread / LastMessage from the computed locals and
+    the cursors from the row -/
+theorem c34_gen_item_fields :
+    itemFields.lookup "Unread" = some "unread" ∧ itemFields.lookup "LastMessage" = some "last" ∧
+    itemFields.lookup "JoinSeq" = some "row.JoinSeq" ∧ itemFields.lookup "ReadSeq" = some "row.ReadSeq" ∧
+    itemFields.lookup "DeletedToSeq" = some "row.DeletedToSeq" ∧ itemFields.lookup "ActiveAt" = some "row.ActivatedAt" := by
+  decide
+
+
+-- non-vacuity: the regenerated expressions evaluate on a concrete row and head
+example : evalB (goEnv ⟨3, 4, 0, 0, false⟩ ⟨.ok, 10, 0, 6, some 10⟩ 0 0) Gen.C34.visibleMessage = some true := by
+  rw [c34_gen_visible]; decide
+example : evalMax (goEnv ⟨3, 4, 0, 0, false⟩ ⟨.ok, 10, 0, 6, some 10⟩ 0 0) floorOperands = some 2 := by
+  rw [c34_gen_floor]; decide
+example : evalMax (goEnv ⟨3, 4, 0, 0, false⟩ ⟨.ok, 10, 0, 6, some 10⟩ 0 0) effectiveReadOperands = some 6 := by
+  rw [c34_gen_effective_read]; decide
+example : unreadOf ⟨3, 4, 0, 0, false⟩ ⟨.ok, 10, 0, 6, some 10⟩ = 4 := by decide
+example : setTarget ⟨1, 2, 0, 0, false⟩ ⟨.ok, 9, 0, 0, some 9⟩ 3 = some 6 := by decide
+example : clearTarget ⟨1, 2, 0, 0, false⟩ ⟨.ok, 9, 0, 0, some 9⟩ = some 9 := by decide
+example : joinFloor 5 = 4 ∧ joinFloor 0 = 0 := by decide
 
 end WK.C34
